@@ -376,7 +376,7 @@ def encode(sysm, bd, mode):
             pass
     elif mode == 'after_return':
         if pool:
-            busy = lambda S: z3.Or([z3.Or(S[f'st[{i}]'] == RUNNING, z3.And(S[f'st[{i}]'] == PENDING, sysm.pool_kind != 'thread' or True)) for i in range(N)])
+            busy = lambda S: z3.Or([z3.Or(S[f'st[{i}]'] == RUNNING, S[f'st[{i}]'] == PENDING) for i in range(N)])
             s.add(z3.Or([z3.And(main_done(S), busy(S)) for S in St] + [S['$late_start'] for S in St]))
         else:
             s.add(z3.Or([z3.And(main_done(S), z3.Not(z3.And([finished(S, w) for w in workers]))) for S in St]))
@@ -401,6 +401,13 @@ def encode(sysm, bd, mode):
         want = cm['ENDX'][UBASE if isb else UEXC]
         s.add(consts['$fail_at'] >= 0, consts['$fail_base'] == isb, consts['$taskfail'] == -1, consts['$close_at'] == -1, main_done(last),
               z3.Or(last['pc.$main'] != want, last['$delivered'] != consts['$fail_at']))
+    elif mode == 'src_error_weak':
+        # weaker than src_error_position: the source failure surfaces as that same exception, nothing after the failing
+        # position is delivered (order is the `order` query); used while the known finding on dropped buffered results stands
+        s.add(consts['$fail_at'] >= 0, consts['$taskfail'] == -1, consts['$close_at'] == -1, main_done(last),
+              z3.Or(z3.And(consts['$fail_base'], last['pc.$main'] != cm['ENDX'][UBASE]),
+                    z3.And(z3.Not(consts['$fail_base']), last['pc.$main'] != cm['ENDX'][UEXC]),
+                    last['$delivered'] > consts['$fail_at']))
     else:
         raise ValueError(mode)
 
